@@ -180,7 +180,8 @@ def check_search(ck, tu, tree, fn):
             else:
                 ck.ok("SEARCH-TABLE", tree.where(fn, ntype + " linear"), "skip predicate agrees with %s on 3 orderings" % which)
             continue
-        bound = match.binop(cond, ("<",))
+        # lo <= hi is kept by `hi = mid` / `lo = mid + 1` with lo <= mid < hi, so `lo != hi` is the same test
+        bound = match.binop(cond, ("<", "!="))
         if not bound:
             continue
         lo, hi = ref_of(bound[1]), ref_of(bound[2])
